@@ -71,9 +71,13 @@ type SpecFunc struct {
 }
 
 type TypeContract struct {
-	Name    string
-	PkgPath string
-	Invs    []*Clause
+	Name      string
+	PkgPath   string
+	Invs      []*Clause
+	Props     []string
+	Immutable []string // fields never stored to after the object's construction (checked syntactically)
+	File      string
+	Line      int
 }
 
 type Lemma struct {
@@ -84,6 +88,7 @@ type Lemma struct {
 	Arith   string
 	Hyps    []*Clause
 	Concl   []*Clause
+	Steps   []*Clause // hyp / call / concl in source order
 	File    string
 	Line    int
 }
@@ -99,7 +104,7 @@ type ContractFile struct {
 
 var clauseKw = map[string]bool{"func": true, "type": true, "spec": true, "lemma": true, "props": true, "arith": true,
 	"nopanic": true, "requires": true, "ensures": true, "modifies": true, "loop": true, "let": true, "trusted": true,
-	"invariant": true, "note": true, "package": true, "frame": true, "hyp": true, "concl": true, "params": true}
+	"invariant": true, "note": true, "package": true, "frame": true, "hyp": true, "concl": true, "params": true, "call": true, "immutable": true}
 
 // logical lines: a //@ line whose first word is not a keyword continues the previous one.
 type logLine struct {
@@ -205,7 +210,7 @@ func ParseContractFile(path, pkgPath string) (*ContractFile, error) {
 			cf.Funcs[k] = cur
 			cf.Order = append(cf.Order, k)
 		case "type":
-			curT = &TypeContract{Name: rest, PkgPath: cf.PkgPath}
+			curT = &TypeContract{Name: rest, PkgPath: cf.PkgPath, File: path, Line: l.line}
 			cur, curL = nil, nil
 			cf.Types[cf.PkgPath+"::"+rest] = curT
 		case "lemma":
@@ -234,6 +239,23 @@ func ParseContractFile(path, pkgPath string) (*ContractFile, error) {
 			} else {
 				curL.Concl = append(curL.Concl, c)
 			}
+			curL.Steps = append(curL.Steps, c)
+		case "call":
+			if curL == nil {
+				return nil, fail(l, "call outside lemma")
+			}
+			// call [x :=] f(args)
+			bind := ""
+			src := rest
+			if as := strings.Index(rest, ":="); as >= 0 {
+				bind = strings.TrimSpace(rest[:as])
+				src = rest[as+2:]
+			}
+			c, err := mk(l, "call", bind, src)
+			if err != nil {
+				return nil, err
+			}
+			curL.Steps = append(curL.Steps, c)
 		case "spec":
 			// spec name(params) ret := body
 			lp := strings.Index(rest, "(")
@@ -260,9 +282,16 @@ func ParseContractFile(path, pkgPath string) (*ContractFile, error) {
 				cur.Props = ps
 			} else if curL != nil {
 				curL.Props = ps
+			} else if curT != nil {
+				curT.Props = ps
 			} else {
 				return nil, fail(l, "props outside func/lemma")
 			}
+		case "immutable":
+			if curT == nil {
+				return nil, fail(l, "immutable outside type")
+			}
+			curT.Immutable = append(curT.Immutable, strings.FieldsFunc(rest, func(r rune) bool { return r == ',' || r == ' ' })...)
 		case "arith":
 			if cur != nil {
 				cur.Arith = rest
